@@ -64,10 +64,15 @@ def build_model():
 def coq_audit():
     """No Admitted/Axiom/... anywhere in the development.  Returns list of offending lines."""
     bad = []
+    # the development = the files listed in _CoqProject (nothing else is compiled or can be required) + the property files
+    listed = set(l.strip() for l in open(os.path.join(COQ, "_CoqProject")) if l.strip().endswith(".v"))
     for root, _, files in os.walk(COQ):
         for f in files:
             if f.endswith(".v"):
                 p = os.path.join(root, f)
+                rel = os.path.relpath(p, COQ)
+                if rel not in listed and not rel.startswith("Props" + os.sep) and not rel.startswith("Gen" + os.sep) and not rel.startswith("Extract" + os.sep):
+                    continue
                 txt = open(p, errors="replace").read()
                 # strip comments (non-nested is enough for our files; nested handled by loop)
                 prev = None
